@@ -32,6 +32,30 @@ def crate_dir(crate):
     return os.path.join(VERIF, "harness", crate)
 
 
+GEN = os.path.join(VERIF, "harness", "gen")
+A_STAR_STEP = os.path.join(GEN, "a_star_step.rs")
+ENV["VERIF_A_STAR_STEP"] = A_STAR_STEP
+
+
+def prepare(crate):
+    """per-crate preparation before a build. crate `loop`: regenerate the prologue / loop body /
+    epilogue functions of run_a_star from /repo's CURRENT source text (source slicer). Returns an
+    error string if the source no longer has the sliceable shape (fail closed), else None."""
+    if crate != "loop":
+        return None
+    import slice_loop
+    os.makedirs(GEN, exist_ok=True)
+    try:
+        text = slice_loop.generate_a_star(REPO)
+    except (slice_loop.SliceError, OSError) as e:
+        return "source slicer: %s" % e
+    old = open(A_STAR_STEP).read() if os.path.exists(A_STAR_STEP) else None
+    if old != text:
+        with open(A_STAR_STEP, "w") as f:
+            f.write(text)
+    return None
+
+
 def sync_lockfile(crate):
     """dependency versions are the repository's: copy its lock file on every run"""
     src = os.path.join(REPO, "rust", "Cargo.lock")
@@ -77,6 +101,10 @@ def run(crate, filters, jobs=8, harness_timeout=300, outer_timeout=3600, mem_gb=
         extra=None, exact=False):
     """returns dict(build_ok, harnesses={name: {...}}, raw_log, wall_s, cmd)"""
     sync_lockfile(crate)
+    perr = prepare(crate)
+    if perr:
+        return {"cmd": "(not run)", "rc": 2, "wall_s": 0.0, "outer_timeout": False, "raw_log": perr,
+                "harnesses": {}, "build_ok": False, "build_error": perr}
     export = os.path.join(TARGET, f".export-{crate}-{os.getpid()}.json")
     os.makedirs(TARGET, exist_ok=True)
     if os.path.exists(export):
